@@ -277,7 +277,7 @@ def merge(*ds):
 
 
 def _num(e, pt, funcs):
-    e = sp.sympify(e).subs(pt)
+    e = sp.sympify(e).xreplace({k_: sp.Float(v_, 30) for k_, v_ in pt.items()})
     for f_, impl in (funcs or {}).items():
         e = e.replace(f_, impl)
     return complex(sp.N(e, 30))
@@ -317,7 +317,7 @@ def decide(lhs, rhs, dom, seed=0, budget_s=15.0, funcs=None):
             t0 = time.time()
             # a packed identity sum_i c_i (g_i - w_i) is decided entry by entry (it is linear in the c_i)
             cs = sorted([s_ for s_ in res0.free_symbols if s_.name.startswith('c_')], key=lambda s_: s_.name)
-            parts = [res0.subs({c_: (1 if c_ == ci else 0) for c_ in cs}) for ci in cs] if cs else [res0]
+            parts = [res0.xreplace({c_: sp.Integer(1 if c_ == ci else 0) for c_ in cs}) for ci in cs] if cs else [res0]
             r = cas._with_timeout(min(30.0, budget_s), lambda ps: all(p_ == 0 or _radicals_vanish(p_) for p_ in ps), parts)
             if r:
                 return dict(verdict='discharged', how='radical-abstraction', seconds=round(time.time() - t0, 3))
